@@ -22,6 +22,9 @@ Theorems (all over Model/Routing.lean applied to the tables regenerated from /re
   update_state_writes / failed_first_refresh_is_reported / metadata_after_recovery / refresh_recovers
                             what update writes to the cached state (regenerated); an error from a failed FIRST refresh is
                             reported only until the next successful refresh
+  produce_record_format / produce_encoded_for_negotiated_version / prepare_uses_request_version / leave_group_body
+                            the body parts Prepare derives from the negotiated version (regenerated): record format
+                            (magic) of Produce fits the version for every version; LeaveGroup member id below v3
   layout_omits_internal     makeLayout never lists an internal topic, so refreshMetadata cannot see one appear (observation)
   negotiated_unlisted       an API the broker does not list: version 0 if the client supports it, else refused client-side
   parts_cover_splitters     every Splitter type of the source has a split model (regenerated table, decide)
@@ -695,5 +698,44 @@ example : (run discoverExits {} [.connFail, .tick, .answer ⟨0, [⟨1, "b1", 90
     (fun s => (s.alive, s.pool.err, s.pool.metadata.isSome)) = some (true, false, true) := by decide
 
 end recovery
+
+/-! ## encoded with the negotiated version: the body parts `Prepare` derives from it -/
+
+section prepare
+open KV.Spec.Routing (magicOK leaveGroupBodyOK)
+
+/-- **produce_record_format**: for EVERY API version the record format `Prepare` picks (regenerated from
+protocol/produce/produce.go) is the one Kafka accepts in a Produce request of that version: message sets (magic 1)
+below v3, record batches (magic 2) from v3 on -/
+theorem produce_record_format (v : Int) : magicOK v (produceMagic v 0) = true := by
+  unfold magicOK produceMagic produceRecordVersion
+  by_cases h : v < 3 <;> simp [h]
+
+/-- … it is applied to every partition of every topic, and with the version that goes into the request header
+(protocol/conn.go RoundTrip), i.e. the connection's negotiated version of the Produce key -/
+theorem prepare_uses_request_version :
+    produceCoversEveryPartition = true ∧ preparedWithRequestVersion = true ∧
+    preparedPackages = ["leavegroup", "produce"] := by decide
+
+/-- **produce_encoded_for_negotiated_version**: whatever the broker advertised, the Produce request is sent at the
+negotiated version and its record sets are in the format of THAT version -/
+theorem produce_encoded_for_negotiated_version (client : Nat → Int × Int) (table : List (Nat × Int × Int)) (v : Int)
+    (_ : requestVersion client (negotiate client table) 0 = some v) : magicOK v (produceMagic v 0) = true :=
+  produce_record_format v
+
+/-- an explicit record format of the caller is left alone (documented override in Prepare) -/
+theorem produce_explicit_format_kept (v g : Int) (h : g ≠ 0) : produceMagic v g = g := by
+  simp [produceMagic, produceKeepsExplicitVersion, h]
+
+/-- **leave_group_body**: at every version the LeaveGroup body names the leaving member(s) in the field that version
+has: the first of `Members` moves to `MemberID` below v3 -/
+theorem leave_group_body (v : Int) (members : List String) :
+    leaveGroupBodyOK v members (leaveGroupWire v "" members).1 (leaveGroupWire v "" members).2 = true := by
+  unfold leaveGroupBodyOK leaveGroupWire leaveGroupCopiesFirstMember
+  by_cases h : v < 3
+  · cases members <;> simp [h]
+  · simp [h]
+
+end prepare
 
 end KV.Props.C12
